@@ -356,9 +356,33 @@ RET_REG = {"x86_32": "RAX", "x86_64": "RAX", "x86_16": "RAX", "arml": "R0", "arm
 # =================================================================================================
 # template programs: assembled with miasm's own assembler (harness side; a failure to assemble = dropped program)
 
+class _quiet(object):
+    """silence miasm's import-time SyntaxWarnings and its assembler / disassembler log chatter (harness side)"""
+
+    def __enter__(self):
+        import logging
+        import warnings
+        self.cw = warnings.catch_warnings()
+        self.cw.__enter__()
+        warnings.simplefilter("ignore")
+        self.prev = logging.root.manager.disable
+        logging.disable(logging.CRITICAL)
+
+    def __exit__(self, *a):
+        import logging
+        logging.disable(self.prev)
+        self.cw.__exit__(*a)
+        return False
+
+
 def assemble(arch, text, addr):
     """text with a `main:` label pinned at addr -> (bytes, {label: address}); the bytes start at labels["__base__"]
     (the assembler may place other blocks before main)"""
+    with _quiet():
+        return _assemble(arch, text, addr)
+
+
+def _assemble(arch, text, addr):
     from miasm.analysis.machine import Machine
     from miasm.core import parse_asm, asmblock
     from miasm.core.locationdb import LocationDB
@@ -386,10 +410,12 @@ def asm_mep(lines, addr, little=True):
     (big-endian form, the only one mn_mep.asm encodes under Python 3) and laid out here.  `@label` in an operand
     is replaced by the branch displacement.  Each encoding is checked to disassemble back to the same text.
     -> (bytes, {label: address}, [instruction addresses])"""
-    import warnings
-    with warnings.catch_warnings():
-        warnings.simplefilter("ignore")
-        from miasm.arch.mep.arch import mn_mep
+    with _quiet():
+        return _asm_mep(lines, addr, little)
+
+
+def _asm_mep(lines, addr, little):
+    from miasm.arch.mep.arch import mn_mep
     from miasm.core.locationdb import LocationDB
     loc_db = LocationDB()
     items = []
